@@ -38,7 +38,7 @@ structure Codec where
   /-- `maxMsgSizeBytes` -/
   maxMsg : Nat
 
-/-- `WALEncoder.Encode` of a payload -/
+/-- the bytes `WALEncoder.Encode` produces for a payload it accepts (see `Group.encodeWrite` for the size check) -/
 def frame (c : Codec) (p : Bytes) : Bytes := be32 (c.crc p) ++ be32 p.length ++ p
 
 def frames (c : Codec) (ps : List Bytes) : Bytes := (ps.map (frame c)).flatten
@@ -129,6 +129,12 @@ def Group.write (B : Nat) (g : Group) (p : Bytes) : Group :=
     let g1 := { g.appendHead (g.buf ++ p.take n) with buf := [] }
     let q := p.drop n
     if q.length ≤ B then { g1 with buf := q } else g1.appendHead q
+
+/-- `WALEncoder.Encode` on the group (fix 0f01527): a payload longer than `maxMsgSizeBytes` — which the decoder would
+refuse — is answered with an error ("msg is too big") and NOTHING is written; otherwise the framed record goes through
+`Group.Write` -/
+def Group.encodeWrite (B : Nat) (c : Codec) (g : Group) (p : Bytes) : Option Group :=
+  if p.length > c.maxMsg then none else some (g.write B (frame c p))
 
 /-- `Group.Flush`: bufio flush, then `Head.Sync()` (which creates the head if it does not exist) -/
 def Group.flush (g : Group) : Group := { g.appendHead g.buf with buf := [] }
